@@ -18,7 +18,7 @@
      load_state, request_snapshot, ping, adjust_max_inflight_msgs,
      maybe_free_inflight_buffers, set_max_apply_unpersisted_log_limit,
      enable_group_commit, assign_commit_groups) and by every function of the RawNode
-     model (C09_leader_bound_*).  The only hypothesis, needed where an election can be won
+     model (the C09_leader_bound theorems).  The only hypothesis, needed where an election can be won
      inside the call, is "last_index = persisted -> LogBounded" on the pre-state log;
      C09_RepInv_gives_bound derives it from C14's RaftLog invariant when no snapshot is
      pending.  Consequence (one_pending_own of DESIGN.md): while applied <
